@@ -25,7 +25,8 @@ RULE = (
     "runners that raise after j events) under a seeded schedule (random walk / PCT / sticky; traced runs add "
     "line-level pre-emption in testsuite.py and real.py) and a fault plan (caller's result raises at its k-th "
     "event, make_tests raises after k sub-suites, wrap_result raises, KeyboardInterrupt in T0's k-th "
-    "queue.get()/join()); distinct = digest of contended scheduling decisions + abstract history; "
+    "queue.get()/join()/Thread.start()); in a third of the runs the same suite object is then run again with fresh "
+    "sub-suites and no faults; distinct = digest of contended scheduling decisions + abstract history; "
     "non-trivial = >=1 scheduling point with >1 enabled thread"
 )
 REAL_STUB = {
